@@ -15,6 +15,7 @@ Names are interned: X=1 (read into register 0), Y=2 (register 1), LX=3
 A twin environment is built from byte copies of X and Y and goes through the
 same operations; it is never written to and supplies the expected values.
 """
+import gc
 import hashlib
 import json
 import os
@@ -434,8 +435,11 @@ def apply_op(regs, o):
         f = regs[i]
         if not is_field(f):
             raise Skip("domain")
-        regs.append(f.get_domain() if o.get("variant") != "attr" else f.domain)
-        return ["get_domain", i], len(regs) - 1
+        # the domain returned shares its constructs with the field (a view);
+        # unless nothing follows, continue with an independent copy
+        dom = f.get_domain() if o.get("variant") != "attr" else f.domain
+        regs.append(dom if o.get("last") else dom.copy())
+        return ["get_domain", i, list(data_constructs(regs[-1]))], len(regs) - 1
     if kind == "field_source":
         i = o["i"] % len(regs)
         regs.append(cfdm.Field(source=regs[i], copy=o.get("copy", True)) if o.get("copy", True)
@@ -460,10 +464,13 @@ def apply_op(regs, o):
             raise Skip("domain")
         msel, d = select_data(regs[src], o["sel"], o.get("j", 0))
         d = wrap_data(d, o.get("how", "direct"))
-        if f.has_data():
-            f.del_data()
-            f.del_data_axes(default=None)
-        f.set_data(d, axes=new_axes(f, d.shape))
+        if f.has_data() and tuple(f.data.shape) == tuple(d.shape):
+            f.set_data(d, axes=f.get_data_axes())
+        else:
+            if f.has_data():
+                f.del_data()
+                f.del_data_axes(default=None)
+            f.set_data(d, axes=new_axes(f, d.shape))
         return ["set_data", dst, src, msel], dst
     if kind == "del_data":
         i = o["i"] % len(regs)
@@ -549,6 +556,27 @@ def apply_op(regs, o):
             if not is_field(f) or not f.has_data() or f.data.get_compression_type():
                 raise Skip("no data")
             f.data[...] = f.data.array
+        elif v == "inner_to_memory":
+            # bring the compressed data of a compressed array into memory,
+            # keeping its count / index / list variable as it is
+            if not is_field(f) or not f.has_data():
+                raise Skip("no data")
+            d = f.data
+            ctype = d.get_compression_type()
+            src = d.source(None)
+            if ctype not in ("ragged contiguous", "ragged indexed", "gathered") or src is None:
+                raise Skip("not compressed")
+            inner = cfdm.Data(np.asanyarray(src.source()[...]))
+            if ctype == "ragged contiguous":
+                arr = cfdm.RaggedContiguousArray(compressed_array=inner, shape=d.shape, count_variable=d.get_count())
+            elif ctype == "ragged indexed":
+                arr = cfdm.RaggedIndexedArray(compressed_array=inner, shape=d.shape, index_variable=d.get_index())
+            else:
+                arr = cfdm.GatheredArray(compressed_array=inner, shape=d.shape,
+                                         compressed_dimensions=src.compressed_dimensions(),
+                                         list_variable=d.get_list())
+            d2 = cfdm.Data(arr, units=d.get_units(None), calendar=d.get_calendar(None), fill_value=d.get_fill_value(None))
+            f.set_data(d2, axes=f.get_data_axes())
         elif v == "array":
             if not is_field(f) or not f.has_data():
                 raise Skip("no data")
@@ -583,7 +611,7 @@ FAULT_KW = {
 HARMLESS_KW = [
     {}, {"fmt": "NETCDF4_CLASSIC"}, {"fmt": "NETCDF3_CLASSIC"}, {"compress": 1}, {"string": False},
     {"group": False}, {"warn_valid": False}, {"Conventions": "test-1.0"}, {"coordinates": True},
-    {"global_attributes": ["long_name"]}, {"scalar": False}, {"omit_data": "all"},
+    {"global_attributes": ["long_name"]}, {"omit_data": "all"},
     {"datatype": {np.dtype("float64"): np.dtype("float32")}}, {"fletcher32": True, "compress": 2},
     {"shuffle": False, "compress": 3}, {"hdf5_chunks": "contiguous"}, {"endian": "big"},
     {"verbose": 0},
@@ -644,6 +672,16 @@ def raw_vars(path):
 
 
 def do_write(constructs, target, w, extra):
+    try:
+        return do_write1(constructs, target, w, extra)
+    finally:
+        # a write that raised leaves its netCDF4.Dataset to the garbage
+        # collector; collect now so that the file is closed before it is
+        # looked at again
+        gc.collect()
+
+
+def do_write1(constructs, target, w, extra):
     kw = dict(extra)
     if w["mode"] != "w":
         kw["mode"] = w["mode"]
